@@ -12,7 +12,7 @@ import (
 )
 
 type c10Case struct {
-	Phase   string   `json:"phase"` // init | working | extfin | reset | resetgap
+	Phase   string   `json:"phase"` // init | working | extfin | reset | resetgap | failreset
 	D       int      `json:"d"`     // how long the first invocation stays in the phase (ms)
 	Offsets []int    `json:"offsets"`
 	Payload kit.Blob `json:"payload"`
@@ -40,6 +40,13 @@ func (c *c10Case) scenario() *Scenario {
 		sc.Config.ExtDir = []DirEntry{{Name: "e1", Kind: "file"}}
 		sc.Actors["ext:e1"] = []Script{{Steps: []Step{{Op: "ext.loop", Events: []string{"INVOKE"}}}}}
 		sc.Actors["runtime"] = []Script{{Steps: []Step{{Op: "rt.next", Signal: []string{"gotevent"}}, {Op: "stall"}}, OnTerm: "ignore"}, {Steps: []Step{loop}}}
+	case "failreset":
+		// the first invocation fails (the runtime exits after taking the event); an extension ignores SHUTDOWN and TERM, so
+		// the reset that follows the failure lasts until its deadline: extra callers arrive while it is in progress
+		sc.Config.ExtDir = []DirEntry{{Name: "e1", Kind: "file"}}
+		sc.Actors["ext:e1"] = []Script{{Steps: []Step{{Op: "ext.loop", Events: []string{"INVOKE", "SHUTDOWN"}, OnShut: "ignore"}}, OnTerm: "ignore"},
+			{Steps: []Step{{Op: "ext.loop", Events: []string{"INVOKE", "SHUTDOWN"}, OnShut: "exit0"}}}}
+		sc.Actors["runtime"] = []Script{{Steps: []Step{{Op: "rt.next", Signal: []string{"gotevent"}}, {Op: "sleep", Ms: 5}, {Op: "exit", Code: 1}}}, {Steps: []Step{loop}}}
 	case "resetgap":
 		// the first invocation times out; the extra caller arrives in the last stretch of its reset: the interop server has
 		// just forgotten the first invocation's reservation (vhook reset.serverCleared) but the reset call has not returned
@@ -73,6 +80,8 @@ func (c *c10Case) scenario() *Scenario {
 		sc.Driver = append(sc.Driver, Step{Op: "waitreserved"})
 	case "reset":
 		sc.Driver = append(sc.Driver, Step{Op: "await", Name: "gotevent"}, Step{Op: "sleep", Ms: 260})
+	case "failreset":
+		sc.Driver = append(sc.Driver, Step{Op: "await", Name: "gotevent"}, Step{Op: "sleep", Ms: 60})
 	default:
 		sc.Driver = append(sc.Driver, Step{Op: "await", Name: "phase"})
 	}
@@ -189,6 +198,10 @@ func c10Check(c c10Case) kit.Outcome {
 			if e.Kind == "sup.kill" && e.Proc == "runtime-1" && cause == 0 {
 				cause = e.Seq
 			}
+		case "failreset":
+			if e.Kind == "sup.kill" && e.Proc == "extension-e1-1" && cause == 0 {
+				cause = e.Seq
+			}
 		}
 	}
 	inPhase := 0
@@ -246,7 +259,12 @@ func c10Check(c c10Case) kit.Outcome {
 		out.Label("extras-missed-phase")
 	}
 	// the first invocation is unaffected
-	if c.Phase == "reset" || c.Phase == "resetgap" {
+	if c.Phase == "failreset" {
+		if first.Status != 502 || first.ErrType != "Runtime.ExitError" {
+			out.Violate("C10/first-affected", "first invocation (Runtime.ExitError expected) got %d %q", first.Status, clip(first.Text, 200))
+			return out
+		}
+	} else if c.Phase == "reset" || c.Phase == "resetgap" {
 		if first.Status != 200 || first.Text != "Task timed out after 4.00 seconds" {
 			out.Violate("C10/first-affected", "first invocation (timeout expected) got %d %q", first.Status, clip(first.Text, 200))
 			return out
@@ -262,11 +280,11 @@ func c10Check(c c10Case) kit.Outcome {
 }
 
 func c10Gen(t *rapid.T) c10Case {
-	c := c10Case{Phase: rapid.SampledFrom([]string{"init", "working", "extfin", "reset", "resetgap"}).Draw(t, "phase"),
+	c := c10Case{Phase: rapid.SampledFrom([]string{"init", "working", "extfin", "reset", "resetgap", "failreset"}).Draw(t, "phase"),
 		D: rapid.IntRange(50, 400).Draw(t, "d"), Payload: genBlob(t, "p", false)}
 	n := rapid.IntRange(1, 2).Draw(t, "extras")
 	budget := c.D
-	if c.Phase == "reset" {
+	if c.Phase == "reset" || c.Phase == "failreset" {
 		budget = 300
 	}
 	if c.Phase == "resetgap" {
@@ -286,6 +304,7 @@ func c10Fixed() []c10Case {
 		{Phase: "init", D: 150, Offsets: []int{10, 20}, Payload: p},
 		{Phase: "extfin", D: 150, Offsets: []int{10}, Payload: p},
 		{Phase: "reset", D: 100, Offsets: []int{50, 100}, Payload: p},
+		{Phase: "failreset", D: 100, Offsets: []int{20, 150}, Payload: p},
 		{Phase: "resetgap", D: 120, Offsets: []int{0}, Payload: p},
 		{Phase: "resetgap", D: 60, Offsets: []int{5, 20}, Payload: p},
 	}
